@@ -535,17 +535,34 @@ Definition transient_trace : list sev2 :=
   ssteps 0 1 ++
   sbsteps 2 6.
 
-Theorem naive_seen_or_stale_refuted :
-  exists s t v res k,
-    reach2 s /\ sc_pc (scn s t) = SDone v res /\
-    bm (base s) k <> None /\ ~ In k (map fst res) /\
-    b_vins (base s) = v /\ b_insdel (base s) = true /\ b_locked (base s) = true.
+Lemma reach2_witness (P : sstate -> Prop) tr :
+  match srun2 sinit2 tr with Some s => P s | None => False end -> exists s, reach2 s /\ P s.
 Proof.
-  exists (match srun2 sinit2 transient_trace with Some s => s | None => sinit2 end).
+  destruct (srun2 sinit2 tr) as [s|] eqn:E; [|contradiction].
+  intros H. exists s. split; [exists tr; exact E|exact H].
+Qed.
+
+Theorem naive_seen_or_stale_refuted :
+  exists s, reach2 s /\
+    exists t v res k,
+      sc_pc (scn s t) = SDone v res /\
+      bm (base s) k <> None /\ ~ In k (map fst res) /\
+      b_vins (base s) = v /\ b_insdel (base s) = true /\ b_locked (base s) = true.
+Proof.
+  apply (reach2_witness
+           (fun s => exists t v res k,
+                sc_pc (scn s t) = SDone v res /\
+                bm (base s) k <> None /\ ~ In k (map fst res) /\
+                b_vins (base s) = v /\ b_insdel (base s) = true /\ b_locked (base s) = true)
+           transient_trace).
+  destruct (srun2 sinit2 transient_trace) as [s|] eqn:E; [|vm_compute in E; discriminate E].
   exists 0%nat, 2, [(5, 7); (9, 3)], 2.
-  split; [exists transient_trace; vm_compute; reflexivity|].
-  split; [vm_compute; reflexivity|].
-  split; [vm_compute; discriminate|].
-  split; [cbn [map fst In]; intros [H|[H|[]]]; discriminate H|].
-  repeat split; vm_compute; reflexivity.
+  assert (H : match srun2 sinit2 transient_trace with
+              | Some s => sc_pc (scn s 0%nat) = SDone 2 [(5, 7); (9, 3)] /\ bm (base s) 2 = Some 4 /\
+                          b_vins (base s) = 2 /\ b_insdel (base s) = true /\ b_locked (base s) = true
+              | None => False
+              end) by (vm_compute; repeat split).
+  rewrite E in H. destruct H as (H1 & H2 & H3 & H4 & H5).
+  split; [exact H1|]. split; [rewrite H2; discriminate|].
+  split; [cbn [map fst In]; intros [H|[H|[]]]; discriminate H|]. auto.
 Qed.
